@@ -116,7 +116,7 @@ Proof.
 Qed.
 
 Lemma changed_superset ops t :
-  fs_fresh ops = true ->
+  hist_ok md5 size_of v ops = true ->
   let s := run md5 size_of v ops in
   g_status (check s t) = Run ->
   (forall u, In u (uptodate (s_defs s t)) -> eval_utd (s_db s) t u <> Some false) ->
@@ -127,7 +127,7 @@ Lemma changed_superset ops t :
        g_fs g f = Some then_ -> s_fs s f = Some now -> ~ unmodified md5 (s_ck s) then_ now ->
        In f (g_changed (check s t))).
 Proof.
-  intros Hf s. apply changed_superset_at. apply (run_inv md5 size_of v HA HB ops Hf).
+  intros Hf s. apply changed_superset_at. apply run_inv; assumption.
 Qed.
 
 End ChangedH.
@@ -236,13 +236,9 @@ Proof. destruct a; simpl; congruence. Qed.
 
 Lemma step_vals s o : vals_inv s -> vals_inv (step s o).
 Proof.
-  intros H. destruct o; simpl.
-  - (* Write *) eapply vals_inv_ext; eauto.
-  - destruct (s_fs s f); eapply vals_inv_ext; eauto.
-  - eapply vals_inv_ext; eauto.
-  - destruct (s_fs s f); [eapply vals_inv_ext; eauto | exact H].
-  - (* SetDef *) eapply vals_inv_ext; eauto.
-  - eapply vals_inv_ext; eauto.
+  intros H.
+  destruct o; try solve [simpl; unfold step_write;
+    repeat match goal with |- context [match ?x with _ => _ end] => destruct x end; eapply vals_inv_ext; eauto]; simpl.
   - (* SaveOk *)
     unfold process_success, save_success.
     pose proof (save_success_rec_values (s_ck s) (s_fs s) (getrec (s_db s) t) (file_dep (s_defs s t))
@@ -349,88 +345,103 @@ Proof. apply run_from_vals, init_vals. Qed.
 End Values.
 
 (* ---- what _get_task_args reads is what the most recent successful executions saved ---- *)
-(* the table "values saved by the most recent successful execution of each task", as a DB *)
+(* the table "values saved by the most recent successful execution of each task", as a DB: a task
+   without one has an entry (an empty one) only if the DB has a record of it at all -- which, by
+   [vals_inv], is then a record without values (written by `ignore`) *)
 Definition ghost_db (s : state) : db :=
-  fun t => match s_last_ok s t with Some g => Some (set_values empty_rec (g_values g)) | None => None end.
-(* same value, or an error on both sides (the message may name a missing record or a missing key) *)
-Definition res_eq {A} (a b : A + gerr) : Prop :=
-  match a, b with inl x, inl y => x = y | inr _, inr _ => True | _, _ => False end.
+  fun t => match s_last_ok s t with
+           | Some g => Some (set_values empty_rec (g_values g))
+           | None => if db_in (s_db s) t then Some empty_rec else None
+           end.
 
 Section Latest.
 Variable md5 : N -> N.
 Variable size_of : N -> Z.
 Variable v : ver.
+Variable iv : iver.
 
 Lemma get_value_some s t g key :
   vals_inv s -> s_last_ok s t = Some g ->
-  get_value (s_db s) t key =
+  get_value iv (s_db s) t key =
     match key with
     | None => inl (SDict (g_values g))
     | Some k => match vget (g_values g) k with Some x => inl (SVal x) | None => inr (ENoKey t k) end
     end.
 Proof.
   intros H E. specialize (H t). rewrite E in H. destruct H as (r & H1 & H2).
-  unfold get_value, db_in, get_values, getrec. rewrite H1, H2. destruct key; reflexivity.
+  unfold get_value, db_in, get_values, getrec. rewrite H1, H2. rewrite andb_false_r. destruct key; reflexivity.
 Qed.
 
-Lemma get_value_none s t key :
+(* a source that was never saved (no record at all): the documented error, for a key and -- in the
+   repaired code -- for the whole dict alike *)
+Lemma get_value_no_record d t key :
+  d t = None ->
+  get_value iv d t key =
+    match key with
+    | Some _ => inr (ENoRecord t)
+    | None => if fixDict iv then inr (ENoRecord t) else inl (SDict [])
+    end.
+Proof.
+  intros E. unfold get_value, db_in, get_values, getrec. rewrite E. simpl.
+  destruct key; auto. rewrite andb_true_r. destruct (fixDict iv); reflexivity.
+Qed.
+
+(* a source without a last successful execution never yields a value for a key *)
+Lemma get_value_none s t k :
   vals_inv s -> s_crashed s = false -> s_last_ok s t = None ->
-  match key with
-  | None => get_value (s_db s) t key = inl (SDict [])
-  | Some k => exists e, get_value (s_db s) t key = inr e
-  end.
+  exists e, get_value iv (s_db s) t (Some k) = inr e.
 Proof.
   intros H Hc E. specialize (H t). rewrite E in H. specialize (H Hc).
-  unfold get_value. rewrite H. destruct key as [k|]; auto.
-  destruct (negb (db_in (s_db s) t)); simpl; eauto.
+  unfold get_value. rewrite H. destruct (negb (db_in (s_db s) t)); simpl; eauto.
+Qed.
+
+Lemma ghost_db_in s t : vals_inv s -> db_in (ghost_db s) t = db_in (s_db s) t.
+Proof.
+  intros H. specialize (H t). unfold ghost_db, db_in at 1.
+  destruct (s_last_ok s t) as [g|].
+  - destruct H as (r & H1 & _). unfold db_in. rewrite H1. reflexivity.
+  - destruct (db_in (s_db s) t); reflexivity.
+Qed.
+Lemma ghost_db_values s t : vals_inv s -> s_crashed s = false -> get_values (ghost_db s) t = get_values (s_db s) t.
+Proof.
+  intros H Hc. specialize (H t). unfold ghost_db, get_values at 1, getrec.
+  destruct (s_last_ok s t) as [g|].
+  - destruct H as (r & H1 & H2). simpl. unfold get_values, getrec. rewrite H1. auto.
+  - rewrite (H Hc). destruct (db_in (s_db s) t); reflexivity.
 Qed.
 
 Lemma get_value_latest s t key :
-  vals_inv s -> s_crashed s = false -> res_eq (get_value (s_db s) t key) (get_value (ghost_db s) t key).
+  vals_inv s -> s_crashed s = false -> get_value iv (s_db s) t key = get_value iv (ghost_db s) t key.
 Proof.
-  intros H Hc. destruct (s_last_ok s t) as [g|] eqn:E.
-  - rewrite (get_value_some s t g key H E).
-    unfold get_value, ghost_db, db_in, get_values, getrec. rewrite E. simpl.
-    destruct key as [k|]; simpl; auto. destruct (vget (g_values g) k); simpl; auto.
-  - pose proof (get_value_none s t key H Hc E) as Hn.
-    unfold get_value at 2. unfold ghost_db, db_in, get_values, getrec. rewrite E. simpl.
-    destruct key as [k|]; [destruct Hn as [e ->]|rewrite Hn]; simpl; auto.
+  intros H Hc. unfold get_value. rewrite ghost_db_in, ghost_db_values by assumption. reflexivity.
 Qed.
 
 Lemma get_group_latest s subs key :
-  vals_inv s -> s_crashed s = false -> res_eq (get_group (s_db s) subs key) (get_group (ghost_db s) subs key).
+  vals_inv s -> s_crashed s = false -> get_group iv (s_db s) subs key = get_group iv (ghost_db s) subs key.
 Proof.
   intros H Hc. induction subs as [|x subs IH]; simpl; auto.
-  pose proof (get_value_latest s x key H Hc) as Hv.
-  destruct (get_value (s_db s) x key) as [a|e], (get_value (ghost_db s) x key) as [a'|e']; simpl in Hv; try contradiction; auto.
-  subst a'. destruct (get_group (s_db s) subs key) as [l|e], (get_group (ghost_db s) subs key) as [l'|e']; simpl in *; try contradiction; auto.
-  congruence.
+  rewrite (get_value_latest s x key H Hc), IH. reflexivity.
 Qed.
 
 Lemma arg_value_latest s grp g :
-  vals_inv s -> s_crashed s = false -> res_eq (arg_value (s_db s) grp g) (arg_value (ghost_db s) grp g).
+  vals_inv s -> s_crashed s = false -> arg_value iv (s_db s) grp g = arg_value iv (ghost_db s) grp g.
 Proof.
   intros H Hc. unfold arg_value. destruct (grp (ga_src g)) as [subs|].
-  - pose proof (get_group_latest s subs (ga_key g) H Hc) as Hg.
-    destruct (get_group (s_db s) subs (ga_key g)), (get_group (ghost_db s) subs (ga_key g)); simpl in *; try contradiction; auto. congruence.
-  - pose proof (get_value_latest s (ga_src g) (ga_key g) H Hc) as Hg.
-    destruct (get_value (s_db s) (ga_src g) (ga_key g)), (get_value (ghost_db s) (ga_src g) (ga_key g)); simpl in *; try contradiction; auto. congruence.
+  - rewrite (get_group_latest s subs _ H Hc). reflexivity.
+  - rewrite (get_value_latest s _ _ H Hc). reflexivity.
 Qed.
 
 Lemma get_task_args_latest s grp gas :
-  vals_inv s -> s_crashed s = false -> res_eq (get_task_args (s_db s) grp gas) (get_task_args (ghost_db s) grp gas).
+  vals_inv s -> s_crashed s = false -> get_task_args iv (s_db s) grp gas = get_task_args iv (ghost_db s) grp gas.
 Proof.
   intros H Hc. induction gas as [|g gas IH]; simpl; auto.
-  pose proof (arg_value_latest s grp g H Hc) as Hv.
-  destruct (arg_value (s_db s) grp g) as [a|e], (arg_value (ghost_db s) grp g) as [a'|e']; simpl in Hv; try contradiction; auto.
-  subst a'. destruct (get_task_args (s_db s) grp gas), (get_task_args (ghost_db s) grp gas); simpl in *; try contradiction; auto.
-  congruence.
+  rewrite (arg_value_latest s grp g H Hc), IH. reflexivity.
 Qed.
 
 (* for the code in /repo: after every history *)
 Lemma getargs_latest_run ops grp gas :
   let s := run md5 size_of current ops in
-  res_eq (get_task_args (s_db s) grp gas) (get_task_args (ghost_db s) grp gas).
+  get_task_args iv (s_db s) grp gas = get_task_args iv (ghost_db s) grp gas.
 Proof.
   intros s. apply get_task_args_latest.
   - apply run_vals.
@@ -519,18 +530,19 @@ Section RunP.
 Variable md5 : N -> N.
 Variable size_of : N -> Z.
 Variable v : ver.
+Variable iv : iver.
 Variable tab : name -> itask.
 Variable always : bool.
 Variable fails : list name.
-Notation visit := (visit md5 size_of v tab always fails).
-Notation args_and_execute := (args_and_execute md5 size_of v tab fails).
+Notation visit := (visit md5 size_of v iv tab always fails).
+Notation args_and_execute := (args_and_execute md5 size_of v iv tab fails).
 Notation xstep := (xstep md5 size_of v).
 Notation fail := (fail md5 size_of v).
 
 (* a getargs error: the consumer is reported failed (DependencyError), its record is removed, no
    action of it is executed *)
 Lemma args_error x t ch e :
-  get_task_args (s_db (x_s x)) (grp_of tab) (i_getargs (tab t)) = inr e ->
+  get_task_args iv (s_db (x_s x)) (grp_of iv tab) (i_getargs (tab t)) = inr e ->
   let x' := args_and_execute x t ch in
   st_of x' t = RFail (gerr_code e) /\ tr_kw (x_rep x' t) = tr_kw (x_rep x t) /\ x_ops x' = x_ops x ++ [Remove t].
 Proof.
@@ -542,20 +554,29 @@ Qed.
    at that moment, `changed` = dep_changed of this run's get_status, targets/dependencies = the
    task's definition at that moment *)
 Lemma args_ok x t ch opts :
-  get_task_args (s_db (x_s x)) (grp_of tab) (i_getargs (tab t)) = inl opts ->
+  get_task_args iv (s_db (x_s x)) (grp_of iv tab) (i_getargs (tab t)) = inl opts ->
   tr_kw (x_rep (args_and_execute x t ch) t) = Some (prepare_kwargs (s_defs (x_s x) t) ch opts (i_params (tab t))).
 Proof.
   intros E. unfold Inputs.args_and_execute. rewrite E. cbv zeta.
   destruct (mem t fails).
   - unfold Inputs.fail, set_st, set_rep, Inputs.xstep. simpl. rewrite !upd_same. reflexivity.
   - destruct (snd (process_success _ _ _ _ _ _ _));
-      unfold Inputs.fail, set_st, set_rep, Inputs.xstep; simpl; rewrite !upd_same; reflexivity.
+      unfold Inputs.fail, set_st, set_vals, set_rep, Inputs.xstep; simpl; rewrite !upd_same; reflexivity.
 Qed.
 
 (* every state the interpreter reaches is the state of a history: it extends the operations so
    far by Check / SaveOk / Remove / SetDef operations only *)
+Definition runner_op (o : op) : bool :=
+  match o with Check _ | SaveOk _ | Remove _ | SetDef _ _ => true | _ => false end.
 Definition ext (x x' : xstate) : Prop :=
-  exists ops, x_ops x' = x_ops x ++ ops /\ x_s x' = run_from md5 size_of v (x_s x) ops /\ fs_fresh ops = true.
+  exists ops, x_ops x' = x_ops x ++ ops /\ x_s x' = run_from md5 size_of v (x_s x) ops /\ forallb runner_op ops = true.
+(* such operations write no file: appended to any history they keep it FS-fresh (hist_ok) *)
+Lemma runner_ops_ok ops : forallb runner_op ops = true -> forall s, hist_ok_from md5 size_of v s ops = true.
+Proof.
+  induction ops as [|o ops IH]; intros H s; simpl in *; auto.
+  apply andb_true_iff in H. destruct H as [H1 H2]. rewrite IH by exact H2.
+  destruct o; try discriminate; reflexivity.
+Qed.
 
 Lemma ext_refl x : ext x x.
 Proof. exists []. rewrite app_nil_r. auto. Qed.
@@ -567,13 +588,15 @@ Proof.
   intros (o1 & A1 & A2 & A3) (o2 & B1 & B2 & B3). exists (o1 ++ o2). split; [|split].
   - rewrite B1, A1, app_assoc. reflexivity.
   - rewrite B2, A2, run_from_app. reflexivity.
-  - unfold fs_fresh in *. rewrite forallb_app, A3, B3. reflexivity.
+  - rewrite forallb_app, A3, B3. reflexivity.
 Qed.
-Lemma ext_xstep x o : fresh_op o = true -> ext x (xstep x o).
+Lemma ext_xstep x o : runner_op o = true -> ext x (xstep x o).
 Proof. intros H. exists [o]. simpl. rewrite H. auto. Qed.
 Lemma ext_set_rep x t r : ext x (set_rep x t r).
 Proof. exists []. simpl. rewrite app_nil_r. auto. Qed.
 Lemma ext_set_st x t r : ext x (set_st x t r).
+Proof. apply ext_set_rep. Qed.
+Lemma ext_set_vals x t vl : ext x (set_vals x t vl).
 Proof. apply ext_set_rep. Qed.
 Lemma ext_fail x t c : ext x (fail x t c).
 Proof. unfold Inputs.fail. eapply ext_trans; [apply (ext_xstep x (Remove t)); reflexivity|apply ext_set_st]. Qed.
@@ -587,13 +610,13 @@ Qed.
 Lemma ext_args x t ch : ext x (args_and_execute x t ch).
 Proof.
   unfold Inputs.args_and_execute.
-  destruct (get_task_args _ _ _); [|apply ext_fail]. cbv zeta.
+  destruct (get_task_args _ _ _ _); [|apply ext_fail]. cbv zeta.
   eapply ext_trans; [apply ext_set_rep|].
   destruct (mem t fails); [apply ext_fail|].
   destruct (snd (process_success _ _ _ _ _ _ _)).
-  - eapply ext_trans; [apply (ext_xstep _ (SaveOk t)); reflexivity|apply ext_set_st].
-  - eapply ext_trans; [apply (ext_xstep _ (SaveOk t)); reflexivity|apply ext_fail].
-  - eapply ext_trans; [apply (ext_xstep _ (SaveOk t)); reflexivity|apply ext_set_st].
+  - eapply ext_trans; [apply ext_set_vals|eapply ext_trans; [apply (ext_xstep _ (SaveOk t)); reflexivity|apply ext_set_st]].
+  - eapply ext_trans; [apply ext_set_vals|eapply ext_trans; [apply (ext_xstep _ (SaveOk t)); reflexivity|apply ext_fail]].
+  - eapply ext_trans; [apply ext_set_vals|eapply ext_trans; [apply (ext_xstep _ (SaveOk t)); reflexivity|apply ext_set_st]].
 Qed.
 
 Lemma visit_ext fuel : forall x t, ext x (visit fuel x t).
@@ -617,7 +640,7 @@ Proof.
     (let x5 := fold_left (visit fuel) (i_setup (tab t)) x4 in
      if existsb (fun d => is_ign (st_of x5 d)) (i_setup (tab t)) then set_st x5 t RIgnore
      else if existsb (fun d => is_fail (st_of x5 d)) (i_setup (tab t)) then Inputs.fail md5 size_of v x5 t 40
-     else Inputs.args_and_execute md5 size_of v tab fails x5 t (g_changed (check md5 v (x_s x3) t)))).
+     else Inputs.args_and_execute md5 size_of v iv tab fails x5 t (g_changed (check md5 v (x_s x3) t)))).
   { cbv zeta. set (x5 := fold_left (visit fuel) (i_setup (tab t)) x4).
     assert (E5 : ext x4 x5) by (apply ext_fold; exact IH).
     destruct (existsb _ _); [eapply ext_trans; [exact E5|apply ext_set_st]|].
@@ -625,21 +648,39 @@ Proof.
     eapply ext_trans; [exact E5|apply ext_args]. }
   destruct (g_status (check md5 v (x_s x3) t)) eqn:Eg.
   - destruct (Status.status_eqb UpToDate UpToDate && negb always).
-    + eapply ext_trans; [exact E04|apply ext_set_st].
+    + eapply ext_trans; [exact E04|eapply ext_trans; [apply ext_set_vals|apply ext_set_st]].
     + eapply ext_trans; [exact E04|exact Hrun].
   - destruct (Status.status_eqb Run UpToDate && negb always).
-    + eapply ext_trans; [exact E04|apply ext_set_st].
+    + eapply ext_trans; [exact E04|eapply ext_trans; [apply ext_set_vals|apply ext_set_st]].
     + eapply ext_trans; [exact E04|exact Hrun].
   - eapply ext_trans; [exact E04|apply ext_fail].
   - eapply ext_trans; [exact E04|apply ext_set_st].
 Qed.
 
 Lemma run_sel_history fuel s sel :
-  exists ops, x_s (run_sel md5 size_of v tab always fails fuel s sel) = run_from md5 size_of v s ops /\ fs_fresh ops = true.
+  exists ops, x_s (run_sel md5 size_of v iv tab always fails fuel s sel) = run_from md5 size_of v s ops /\
+              forall s0, hist_ok_from md5 size_of v s0 ops = true.
 Proof.
   unfold run_sel.
   destruct (ext_fold (visit fuel) sel (visit_ext fuel) {| x_s := s; x_ops := []; x_rep := fun _ => no_rep |}) as (ops & _ & H & F).
-  exists ops. auto.
+  exists ops. split; auto. apply runner_ops_ok. exact F.
+Qed.
+
+(* the repaired code reads, for a group source, only names that are sub-tasks of the group *)
+Lemma grp_of_subtasks g l :
+  fixGroup iv = true -> grp_of iv tab g = Some l ->
+  forall x, In x l -> In x (i_task_dep (tab g)) /\ i_sub_of (tab x) = Some g.
+Proof.
+  intros Hf E x Hx. unfold grp_of in E. destruct (i_group (tab g)); [|discriminate].
+  rewrite Hf in E. inversion E; subst l. apply filter_In in Hx. destruct Hx as [H1 H2]. split; auto.
+  unfold is_sub_of in H2. destruct (i_sub_of (tab x)) as [g'|]; [|discriminate]. apply N.eqb_eq in H2. congruence.
+Qed.
+Lemma get_group_keys iv' d subs key l : get_group iv' d subs key = inl l -> map fst l = subs.
+Proof.
+  revert l. induction subs as [|x subs IH]; intros l H; simpl in H.
+  - inversion H. reflexivity.
+  - destruct (get_value iv' d x key); [|discriminate]. destruct (get_group iv' d subs key) as [l'|]; [|discriminate].
+    inversion H; subst. simpl. f_equal. apply IH. reflexivity.
 Qed.
 
 End RunP.
@@ -694,8 +735,8 @@ Proof.
   - intros ch opts Ho f Hf. exists (file_dep (s_defs s' t)). split; [|apply Hin; exact Hf].
     rewrite action_input_meta by exact Ho. reflexivity.
   - intros Hu f Hf.
-    assert (Hinv' : db_reflects_ghost md5 s') by (apply (step_inv md5 size_of v HA HB); [reflexivity|exact Hinv]).
-    destruct (sound_at md5 v HA s' t Hinv' Hu) as (_ & _ & _ & H4 & _ & H6).
+    assert (Hinv' : db_reflects_ghost md5 s') by (apply step_inv; try assumption; reflexivity).
+    destruct (sound_at md5 v) with (s := s') (t := t) as (_ & _ & _ & H4 & _ & H6); try assumption.
     split; [apply H4, Hin, Hf|].
     intros g Hg. destruct (H6 g Hg) as (_ & Hset & Hfiles). split.
     + apply Hset. apply Hin. exact Hf.
